@@ -114,12 +114,27 @@ func dataflowCase(c *Ctx, focus string) {
 		gcfg.MapBias = true
 	}
 	prog := Generate(c.Plan, gcfg)
-	if !AdvOn && c.Plan.Draw(8) == 0 {
-		prog = templateDisabledProg(c.Plan)
-		c.Res.Probes["template-disabled-program"]++
+	narrow := false
+	if !AdvOn {
+		switch c.Plan.Draw(16) {
+		case 0, 1:
+			prog = templateDisabledProg(c.Plan)
+			c.Res.Probes["template-disabled-program"]++
+		case 2:
+			prog = templateNarrowProg(c.Plan)
+			narrow = true
+			c.Res.Probes["template-narrowing-program"]++
+		}
 	}
 	cfg := &RunCfg{Prog: prog, FCfg: &FCfg{MaxLen: 1 + c.Plan.Draw(3), MaxChunks: c.Plan.Draw(4), Salt: "df", AllowNil: c.Plan.Draw(4) == 0},
 		MaxSteps: 60000}
+	if narrow {
+		cfg.FCfg.AllowNil = c.Plan.Draw(4) > 0
+		cfg.FCfg.MaxLen = 2 + c.Plan.Draw(5)
+		cfg.FCfg.Salt = fmt.Sprintf("df%d", c.Plan.Draw(1000))
+		cfg.MapMode = c.Plan.Draw(3)
+		cfg.MapSalt = uint64(c.Plan.Draw(1 << 20))
+	}
 	if AdvOn {
 		cfg.FCfg.KeyAlphabet = AdvKeys
 		cfg.FCfg.MaxLen += c.Plan.Draw(3)
@@ -244,6 +259,77 @@ func init() {
 // several run-time disable conditions": flags computed by stages, a producer
 // disabled by one flag, a sub-pipeline (passing its input through and calling a
 // stage) disabled by another, consumers of single fields and of whole structs.
+// templateNarrowProg: a producer whose outputs are (collections of) a wide struct,
+// bound to consumers and pipeline outputs declared with a narrower struct, in every
+// container the run-time filter distinguishes (plain, array, typed map, map of
+// arrays, field of an outer struct), directly and through a sub-pipeline.  The extra
+// fields must be dropped everywhere (C01); elements may be null.
+func templateNarrowProg(plan *Tape) *Prog {
+	p := &Prog{}
+	intT, strT := Ty{Base: "int"}, Ty{Base: "string"}
+	narrow := &StructDef{Name: "NARROW", Fields: []Field{{"a", intT}}}
+	wide := &StructDef{Name: "WIDE", Fields: []Field{{"a", intT}, {"b", strT}, {"c", intT.ArrayOf()}}}
+	outerN := &StructDef{Name: "OUTERN", Fields: []Field{{"one", Ty{Base: "NARROW"}}, {"many", Ty{Base: "NARROW", Dims: "m"}}}}
+	outerW := &StructDef{Name: "OUTERW", Fields: []Field{{"one", Ty{Base: "WIDE"}}, {"many", Ty{Base: "WIDE", Dims: "m"}}, {"extra", intT}}}
+	p.Structs = []*StructDef{narrow, wide, outerN, outerW}
+	ref := func(call string, path ...string) *Expr { return &Expr{Kind: ERef, Call: call, Path: path} }
+	self := func(path ...string) *Expr { return &Expr{Kind: ERef, Self: true, Path: path} }
+	shapes := []string{"", "a", "m", "ma", "am"}
+	var pouts, cins []Field
+	for i, d := range shapes {
+		pouts = append(pouts, Field{fmt.Sprintf("w%d", i), Ty{Base: "WIDE", Dims: d}})
+		cins = append(cins, Field{fmt.Sprintf("n%d", i), Ty{Base: "NARROW", Dims: d}})
+	}
+	pouts = append(pouts, Field{"wo", Ty{Base: "OUTERW"}}, Field{"wom", Ty{Base: "OUTERW", Dims: "m"}})
+	cins = append(cins, Field{"no", Ty{Base: "OUTERN"}}, Field{"nom", Ty{Base: "OUTERN", Dims: "m"}})
+	p.Stages = []*StageDef{
+		{Name: "PRODUCE", SrcKind: "comp", Ins: []Field{{"seed", intT}}, Outs: pouts},
+		{Name: "CONSUME", SrcKind: "comp", Ins: cins, Outs: []Field{{"done", intT}}},
+	}
+	pass := &PipelineDef{Name: "PASS", Ins: append([]Field{}, cins...)}
+	for _, f := range cins {
+		pass.Outs = append(pass.Outs, Field{"r_" + f.Name, f.T})
+		pass.Ret = append(pass.Ret, Bind{"r_" + f.Name, self(f.Name), false})
+	}
+	pc := &CallDef{Callee: "CONSUME", Id: "CONSUME"}
+	for _, f := range cins {
+		pc.Binds = append(pc.Binds, Bind{f.Name, self(f.Name), false})
+	}
+	pass.Calls = []*CallDef{pc}
+	top := &PipelineDef{Name: "TOPN", Ins: []Field{{"seed", intT}}}
+	top.Calls = append(top.Calls, &CallDef{Callee: "PRODUCE", Id: "PRODUCE", Binds: []Bind{{"seed", self("seed"), false}}})
+	direct := &CallDef{Callee: "CONSUME", Id: "CONSUME"}
+	via := &CallDef{Callee: "PASS", Id: "PASS"}
+	for i, f := range cins {
+		direct.Binds = append(direct.Binds, Bind{f.Name, ref("PRODUCE", pouts[i].Name), false})
+		via.Binds = append(via.Binds, Bind{f.Name, ref("PRODUCE", pouts[i].Name), false})
+	}
+	if plan.Draw(3) > 0 {
+		top.Calls = append(top.Calls, direct)
+	}
+	usePass := plan.Draw(2) == 0
+	if usePass {
+		p.Pipelines = append(p.Pipelines, pass)
+		top.Calls = append(top.Calls, via)
+	}
+	for i, f := range cins {
+		if plan.Draw(2) == 0 {
+			top.Outs = append(top.Outs, Field{"t_" + f.Name, f.T})
+			top.Ret = append(top.Ret, Bind{"t_" + f.Name, ref("PRODUCE", pouts[i].Name), false})
+		} else if usePass {
+			top.Outs = append(top.Outs, Field{"t_" + f.Name, f.T})
+			top.Ret = append(top.Ret, Bind{"t_" + f.Name, ref("PASS", "r_"+f.Name), false})
+		}
+	}
+	if len(top.Outs) == 0 {
+		top.Outs = []Field{{"t_n0", cins[0].T}}
+		top.Ret = []Bind{{"t_n0", ref("PRODUCE", "w0"), false}}
+	}
+	p.Pipelines = append(p.Pipelines, top)
+	p.Top = &CallDef{Callee: "TOPN", Id: "TOPN", Binds: []Bind{{"seed", &Expr{Kind: ELit, Val: int64(plan.Draw(1000)), T: intT}, false}}}
+	return p
+}
+
 func templateDisabledProg(plan *Tape) *Prog {
 	p := &Prog{}
 	intT, boolT, strT := Ty{Base: "int"}, Ty{Base: "bool"}, Ty{Base: "string"}
